@@ -359,6 +359,24 @@ def kind_specs(tt, target_variants):
     return "\n".join(out)
 
 
+def code_loc_spec(tt):
+    """Spec twin of `impl CodeLocation for Expression` (pt.rs), generated from the Expression type definition:
+    the first Loc field of the variant; Variable -> its identifier's loc; String/Hex literal -> first piece."""
+    arms = []
+    for vn, kind, fs in tt.types["Expression"][1]:
+        if kind == "tuple" and fs and fs[0][1] == ("path", "Loc", []):
+            pat = "(l" + "".join(", _" for _ in fs[1:]) + ")"
+            arms.append("        pt::Expression::%s%s => l," % (vn, pat))
+        elif vn == "Variable":
+            arms.append("        pt::Expression::Variable(id) => id.loc,")
+        elif vn in ("StringLiteral", "HexLiteral"):
+            arms.append("        pt::Expression::%s(v) => if v@.len() > 0 { v@[0].loc } else { arbitrary() }," % vn)
+        else:
+            raise RuntimeError("code_loc_spec: unexpected Expression variant shape %s" % vn)
+    return ("/// spec twin of `impl CodeLocation for Expression` (TRUSTED transcription; the impl itself is external code)\n"
+            "pub open spec fn code_loc(e: pt::Expression) -> pt::Loc {\n    match e {\n%s\n    }\n}\n" % "\n".join(arms))
+
+
 # ---------------------------------------------------------------- executable oracle generation
 
 class ExecGen:
